@@ -317,8 +317,7 @@ def digest_election(p, o):
     from droop.election import Election
     try:
         E = Election(ElectionProfile(data=gen.blt(p)), dict(o))
-        with contextlib.redirect_stdout(io.StringIO()):
-            E.count()
+        implrun.limited_count(E, 4.0)
         out = E.report() + '\x00' + E.dump() + '\x00' + E.json()
         return hashlib.sha256(out.encode()).hexdigest()
     except Exception as e:
@@ -553,8 +552,7 @@ def full_view(p_text, o):
     from droop.profile import ElectionProfile
     from droop.election import Election
     E = Election(ElectionProfile(data=p_text), dict(o))
-    with contextlib.redirect_stdout(io.StringIO()):
-        E.count()
+    implrun.limited_count(E, 4.0)
     acts = []
     for a in E.record()['actions']:
         acts.append(json.dumps({k: v for k, v in a.items()}, default=str, sort_keys=True))
@@ -706,8 +704,7 @@ def named_view(text, o):
     from droop.profile import ElectionProfile
     from droop.election import Election
     E = Election(ElectionProfile(data=text), dict(o))
-    with contextlib.redirect_stdout(io.StringIO()):
-        E.count()
+    implrun.limited_count(E, 4.0)
     rec = E.record(); cd = rec['cdict']; out = []
     for a in rec['actions']:
         if a['tag'] == 'log':
